@@ -34,7 +34,7 @@ OUTSIDE = ['maildir', 'other sessions mutating concurrently (C02)']
 
 _g: dict = {}
 OPS = ['store', 'uidstore', 'expunge', 'uidexpunge', 'fetch_body', 'uidfetch_body', 'copy', 'move', 'uidmove',
-       'append_self', 'close', 'noop']
+       'append_self', 'close', 'noop', 'copy_self', 'uidcopy_self']
 
 
 def setup() -> None:
@@ -79,6 +79,12 @@ def program(g, sim, base, m, mode, script, check):
         elif op == 'copy':
             cond, _ = w.copy(0, a['set'], 'Other')
             want = ('OK',) if selected else ('BAD',)
+        elif op in ('copy_self', 'uidcopy_self'):
+            # COPY with the selected mailbox itself as destination
+            if mode != 'robox':
+                continue       # an EXAMINEd mailbox that is writable may receive copies (they are counted elsewhere)
+            cond, _ = w.copy(0, a['set'], 'INBOX', uid=(op == 'uidcopy_self'))
+            want = ('NO',) if selected else ('BAD',)
         elif op in ('move', 'uidmove'):
             cond, _ = w.copy(0, a['set'], 'Other', uid=(op == 'uidmove'), move=True)
             want = ('NO', 'OK') if selected else ('BAD',)   # decided by the dump comparison below
@@ -121,7 +127,7 @@ def _gen(eng, t, op, m, base):
     from pysymex import SymUid
     a = {}
     uidm = op.startswith('uid')
-    if op in ('store', 'uidstore', 'uidexpunge', 'fetch_body', 'uidfetch_body', 'copy', 'move', 'uidmove'):
+    if op in ('store', 'uidstore', 'uidexpunge', 'fetch_body', 'uidfetch_body', 'copy', 'move', 'uidmove', 'copy_self', 'uidcopy_self'):
         if uidm:
             mk = lambda nm: SymUid((base + eng.fresh_int('%s%d' % (nm, t), 0, m + 3)).t)  # noqa: E731
         else:
